@@ -87,6 +87,28 @@ TEMPLATES = [
 ]
 
 
+def _nested_free_faults():
+    """assignment to a constant from k levels of nested functions, each level declaring the name `free` (untyped or typed):
+    the assignment has to be carried outward through every intermediate `free` to the scope that defines the constant"""
+    out = []
+    for k in (1, 2, 3):
+        for typed in (False, True):
+            fr = 'free kc: MachineInteger;' if typed else 'free kc;'
+            inner = 'kc := 6;'
+            for lev in range(k, 0, -1):
+                inner = 'nf%d(): () == { %s %s }; nf%d();' % (lev, fr, inner, lev) if lev > 1 else 'nf1(): () == { %s %s }' % (fr, inner)
+            # constant local to the case function
+            out.append(('assignment-to-constant-free%d%s-local' % (k, 't' if typed else ''),
+                        'c@K@(): () == { import from MachineInteger; kc: MachineInteger == 5; %s; nf1(); pIMI("K:", kc) }\n' % inner))
+            # constant at file level
+            out.append(('assignment-to-constant-free%d%s-file' % (k, 't' if typed else ''),
+                        'import from MachineInteger;\nkc: MachineInteger == 5;\n%s;\nc@K@(): () == { import from MachineInteger; nf1(); pIMI("K:", kc) }\n' % inner))
+    return out
+
+
+TEMPLATES += _nested_free_faults()
+
+
 def keyword_faults():
     """calls of functions with default parameter values that must be rejected: a keyword that names no parameter (alone, next
     to positional arguments, with an ill-typed or undefined value), a keyword value of the wrong type, a parameter supplied
